@@ -6,7 +6,7 @@ from ..term import Terms, show, walk, is_call, alts, match, V, C, TRY, ok_payloa
 from ..guards import guards, strip_not
 from ..rules_e1 import run_e1, by_names
 from ..rules_e2 import run_e2
-from ..rules_float import run_float
+from ..rules_float import run_float, run_floatdiv
 
 HELPERS = {"checked_add_invariant": 1, "checked_add_invariant_duration": 1, "total_invariant": None, "round_span_invariant": 1}
 
@@ -17,7 +17,9 @@ def run(ctx, rep):
     rel_guard(rep, prog)
     window(rep, prog)
     rounded_output(rep, prog)
+    no_overwrite(rep, prog)
     run_float(ctx, rep)
+    run_floatdiv(ctx, rep)
     roots = ["span::Span::round", "span::Span::total", "span::Span::compare", "span::Span::checked_add", "span::Span::checked_sub",
              "span::Span::to_duration", "span::Span::checked_mul", "<signed_duration::SignedDuration as core::convert::TryFrom<span::Span>>::try_from"]
     run_e1(ctx, rep, lambda E: by_names(E, roots), min_roots=6, min_sites=400)
@@ -153,3 +155,71 @@ def rounded_output(rep, prog, rule="ROUNDED-OUTPUT"):
             else:
                 rep.ok(rule, key, how="every reaching value is round_by_unit_in_nanoseconds(_, smallest, increment)", loc=loc)
     rep.floor(rule + " sites", n, 2)
+
+
+UNIT_ORDER = ["Nanosecond", "Microsecond", "Millisecond", "Second", "Minute", "Hour", "Day", "Week", "Month", "Year"]
+SETTER_UNIT = {"years_ranged": "Year", "months_ranged": "Month", "weeks_ranged": "Week", "days_ranged": "Day",
+               "hours_ranged": "Hour", "minutes_ranged": "Minute", "seconds_ranged": "Second"}
+
+
+def no_overwrite(rep, prog, rule="NO-OVERWRITE"):
+    """Span::from_invariant_nanoseconds(L, n) distributes n over the units up to L (weeks only when L is Week); a unit
+    setter applied to its result afterwards must not replace a unit that the conversion just computed"""
+    rep.rule(rule, "in span.rs, a `<unit>_ranged` setter applied to the result of Span::from_invariant_nanoseconds(L, n) sets a unit that "
+                   "the conversion does not produce: above L when L is a constant; and when L is a parameter, the Week setter (weeks "
+                   "are produced exactly when L == Week, with the carry of the rounding in them) is applied only on a path that "
+                   "excludes L == Week - otherwise the rounded week count is replaced by the stale one")
+    n = 0
+    for f in sorted(prog.fns.values(), key=lambda f: f.key):
+        if f.crate != "jiff" or f.file != "src/span.rs":
+            continue
+        T = None
+        cfg = None
+        for bi, t in mir.iter_calls(f):
+            name = t.get("path", "").rsplit("::", 1)[-1]
+            if name not in SETTER_UNIT or not t.get("path", "").startswith("span::Span::"):
+                continue
+            T = T or Terms(f)
+            recv = T.at_call(bi, t, 0)
+            conv = [x for a in alts(recv) for x in walk(a) if is_call(x, "Span::from_invariant_nanoseconds")]
+            if not conv:
+                continue
+            cfg = cfg or mir.CFG(f)
+            n += 1
+            u = SETTER_UNIT[name]
+            key = "%s %s#%d" % (f.path.split("::")[-1], name, n)
+            loc = "%s:%s" % (t["span"]["file"], t["span"]["line"])
+            L = conv[0][2][0]
+            if L[0] == "agg" and L[1].endswith("Unit"):
+                lname = L[2]
+                if UNIT_ORDER.index(u) > UNIT_ORDER.index(lname) and not (u == "Week" and lname == "Week"):
+                    rep.ok(rule, key, how="%s is above the conversion's largest unit %s" % (u, lname), loc=loc)
+                else:
+                    rep.violation(rule, key, "the %s setter replaces a unit that from_invariant_nanoseconds(Unit::%s, ..) computed" % (u, lname), loc)
+                continue
+            if u in ("Year", "Month"):
+                rep.ok(rule, key, how="years and months are never produced by the conversion", loc=loc)
+                continue
+            if u == "Week":
+                gs = guards(f, cfg, T, bi)
+                excl = False
+                for (c, truth, _sb) in gs:
+                    c2, tr2 = strip_not(c, truth)
+                    mentions_week = any(isinstance(x, tuple) and x and x[0] == "agg" and x[1].endswith("Unit") and x[2] == "Week" for x in walk(c2))
+                    mentions_L = any(x == L for x in walk(c2))
+                    if mentions_week and mentions_L and c2[0] == "call" and c2[1].rsplit("::", 1)[-1] in ("eq", "ne"):
+                        is_eq = c2[1].rsplit("::", 1)[-1] == "eq"
+                        if (is_eq and tr2 is False) or (not is_eq and tr2 is True):
+                            excl = True
+                    if c2[0] == "disc" and c2[1] == L and isinstance(truth, tuple):
+                        wk = 7  # discriminant of Unit::Week
+                        if (truth[0] == "ne" and wk in truth[1]) or (truth[0] == "eq" and wk not in truth[1]):
+                            excl = True
+                if excl:
+                    rep.ok(rule, key, how="applied only where the largest unit is not Week", loc=loc)
+                else:
+                    rep.violation(rule, key, "weeks_ranged(..) replaces the week count that from_invariant_nanoseconds(largest, ..) computes when "
+                                  "largest == Week: a rounding that carries into a new week loses it", loc)
+                continue
+            rep.violation(rule, key, "the %s setter replaces a unit computed by from_invariant_nanoseconds" % u, loc)
+    rep.floor(rule + " sites", n, 5)
